@@ -38,7 +38,7 @@ PROPS = {
     ),
 }
 
-ENGINES = {'e2e': vlib.e2e_engine, 'store': vlib.store_engine, 'atomic': vlib.atomic_engine, 'encrypt': vlib.encrypt_engine, 'swr': vlib.swr_engine}
+ENGINES = {'e2e': vlib.e2e_engine, 'store': vlib.store_engine, 'atomic': vlib.atomic_engine, 'encrypt': vlib.encrypt_engine, 'swr': vlib.swr_engine, 'conc': vlib.conc_engine}
 
 
 def _e2e(profiles, monitors, projection, nq=1500, nt=20000, extra=None):
@@ -102,3 +102,13 @@ PROPS['C20'] = dict(engines=['e2e', 'swr'],
                           '(304, 200, 500, transport error) x stored validators, plus random points; observed: foreground latency, status and body, number of background requests, their '
                           'conditional fields, the deadline of their context, when they ended, goroutines of the library left in the bubble; every experiment is non-trivial'),
                     assumptions=['the upstream RoundTripper returns once the request context is done (net/http.Transport does); testing/synctest virtual time equals the clock the transport reads'])
+
+PROPS['C16'] = dict(engines=['conc'], conc=dict(n_quick=400, n_thorough=8000, race_iters_quick=400, race_iters_thorough=6000),
+                    rule=('(a) generated histories cut into phases of 1-4 concurrent RoundTrip calls (same and different URIs and variants, GET and unsafe methods, stale-while-revalidate '
+                          'background work) run on the real transport inside a testing/synctest bubble where every store and origin operation of every goroutine waits for a seeded scheduler: '
+                          'one operation at a time, all interleavings at that granularity reachable, the schedule recorded and replayed on the extracted concurrent model; results and the '
+                          'labelled operation trace are compared; every returned response and request is kept and compared with its snapshot after each later phase; a case is non-trivial when '
+                          'a phase has at least two concurrent calls; (b) 8 free-running goroutines x N requests on memcache and fscache against a functional origin under the Go race '
+                          'detector, each response checked for resource, variant, body/ETag/generation consistency and for not being touched after return'),
+                    assumptions=['the Go race detector reports the races of the executions it observes (not all possible ones)',
+                                 'store operations are atomic (memcache mutex; fscache: C15)'])
